@@ -295,6 +295,24 @@ def _slice_form(c, fn, st, gname):
         problems.append(f"burn/thin are used {len(uses)} times (expected only in the slice)")
     if any(isinstance(x, ast.Name) and x.id in (burn, thin) and isinstance(x.ctx, ast.Store) for x in ast.walk(fn)):
         problems.append("burn/thin are reassigned")
+    # a per-parameter store read out as (samples x parameters): the stacked (parameters x samples) table is TRANSPOSED, never re-read
+    # in another order (a reshape to the same shape interleaves the parameters' histories)
+    if isinstance(want_store, tuple) and gname == "get_sample" and not problems:
+        rzo = Resolver(fn)
+        rts = rzo.return_terms()
+        if len(rts) == 1:
+            t_ = rts[0]
+            stack = "array([_p." + want_store[1] + "[" + burn + "::" + thin + "] for _p in self." + want_store[0] + "])"
+            good = any(pmatch(t_, pt) is not None for pt in (stack + ".T", stack + ".transpose()", "transpose(" + stack + ")",
+                                                             "column_stack([_p." + want_store[1] + "[" + burn + "::" + thin + "] for _p in self." + want_store[0] + "])",
+                                                             "swapaxes(" + stack + ", 0, 1)"))
+            if not good:
+                if any(isinstance(x, ast.Call) and U(x.func).split(".")[-1] in ("reshape", "resize") for x in ast.walk(t_)) \
+                        or any(isinstance(x, ast.Attribute) and x.attr == "flat" for x in ast.walk(t_)):
+                    problems.append(f"the (parameters x samples) table is re-read with a reshape instead of being transposed: `{U(t_)[:120]}` - row k of "
+                                    f"the result is then not sample k")
+                else:
+                    raise AnalysisError(f"slice-form: the orientation of `{U(t_)[:120]}` returned by {qual(c, fn)} is not decided")
     return struct_ob("slice-form", qual(c, fn), not problems, "; ".join(problems), rel, fn.lineno,
                      slots={"store": str(want_store), "slice": U(subs[0]) if subs else None})
 
@@ -354,6 +372,13 @@ def _parallel(prog, c, fn):
                 if name not in role:
                     continue
                 r = role[name]
+                # a random draw written out inside the selection is drawn again for the other array: two selections that READ alike are
+                # the same rows only if they use one draw held in a local
+                RANDOM = ("permutation", "choice", "shuffle", "random", "randint", "integers", "rand", "randn", "normal", "uniform", "sample")
+                drawn = [U(x) for x in ast.walk(v) if isinstance(x, ast.Call) and U(x.func).split(".")[-1] in RANDOM]
+                if drawn:
+                    problems.append(f"`{U(st)[:100]}` draws `{drawn[0][:60]}` inside the row selection of `{name}`: the other array's selection, "
+                                    f"however it is spelled, is another draw")
                 vt = rz.term(v, st, keep=names)
                 if isinstance(vt, ast.Call) and U(vt.func) in ("self.get_sample", "self.get_probabilities"):
                     nc = rz.norm_call(vt)
@@ -442,6 +467,26 @@ def _parallel(prog, c, fn):
             okc = cut.eq(anf.fn_("int", R.sym("N") * (R.const(1) - R.sym("interval")))) \
                 and all(names[1] in t_ for ts in seen.values() for t_ in ts)
             why = f"ascending argsort then cut at `{cut_txt[:120]}`"
+            # N is the number of rows being cut: where the cut index is held in a local, the log-probabilities are not shortened
+            # (thinned, trimmed) between its computation and the cut - a re-ordering keeps the count
+            if okc:
+                cdefs = [st_ for st_ in ast.walk(fn) if isinstance(st_, ast.Assign) and len(st_.targets) == 1 and isinstance(st_.targets[0], ast.Name)
+                         and any(isinstance(x, ast.Attribute) and x.attr == "size" and U(x.value) == names[1] for x in ast.walk(st_.value))
+                         and any(isinstance(x, ast.Name) and x.id == "interval" for x in ast.walk(st_.value))]
+                cuts_ = [st_ for st_ in ast.walk(fn) if isinstance(st_, ast.Assign) and len(st_.targets) == 1 and U(st_.targets[0]) == names[1]
+                         and isinstance(st_.value, ast.Subscript) and isinstance(st_.value.slice, ast.Slice) and st_.value.slice.lower is not None
+                         and st_.value.slice.upper is None and st_.value.slice.step is None]
+                if len(cdefs) == 1 and cuts_:
+                    lo_, hi_ = cdefs[0].lineno, cuts_[0].lineno
+                    for st_ in ast.walk(fn):
+                        if isinstance(st_, ast.Assign) and len(st_.targets) == 1 and U(st_.targets[0]) == names[1] and lo_ < st_.lineno < hi_:
+                            v_ = st_.value
+                            reorder = isinstance(v_, ast.Subscript) and U(v_.value) == names[1] and not isinstance(v_.slice, ast.Slice) \
+                                and U(rz.term(v_.slice, st_)) in (f"{names[1]}.argsort()", f"argsort({names[1]})")
+                            if not reorder:
+                                okc = False
+                                why = (f"the cut index `{U(cdefs[0])[:70]}` is computed from the row count before `{U(st_)[:60]}` changes it: "
+                                       f"the cut is taken at a position that belongs to the longer array")
         except Exception as e:
             why = f"cut index `{cut_txt[:120]}` not understood: {e}"
     else:
